@@ -88,6 +88,19 @@ CLAIMED["C06"] = (
     "DESIGN.md section 5 / C06",
 )
 
+CLAIMED["C08"] = (
+    "reference-mapping monitor: the emitted SQL script is parsed into tables/columns/constraints and compared column by column with the truth table written by the program synthesiser",
+    "Model files covering every column kind, tag and directive are run through the real sql.Generate; the script is parsed (harness/pgmodel) and each table/column is compared with what the synthesiser constructed: name and order, SQL type by the documented mapping, NOT NULL, serial primary key, enum CHECK values, fixed-array length CHECK, jsonb validator CHECK defined in the script, guard DEFAULT + equality CHECK, exactly one FOREIGN KEY per key field to the right table with the tagged ON DELETE, composite CREATE TYPE for local composites. Held on the model files produced.",
+    "Trusted: harness/pgmodel script parser; the mapping as stated in the property (int64 -> integer).",
+    "DESIGN.md section 5 / C08",
+)
+CLAIMED["C16"] = (
+    "token-level comparison of the expanded directives observed in the SQL and CRUD outputs with the expansions the synthesiser derived while writing each directive",
+    "Every directive of every synthesised model file must expand to exactly one token-identical statement (comments ignored) attached to the right table, with nothing unexplained in the constraint section and no internal directive leaking; custom queries are compared in Table.CustomQueries and in the generated Go function (placeholder numbering by first occurrence, one typed argument per distinct name, argument order, SQL text). Held on the directives produced.",
+    "Trusted: pgmodel tokenizer (comments dropped), go/parser for the CRUD text.",
+    "DESIGN.md section 5 / C16",
+)
+
 NOT_YET = "check not built yet (work in progress, see DESIGN.md section 5 for the planned monitor)"
 NOT_APPLICABLE = {}
 
